@@ -6,12 +6,27 @@ import CaddyModel.C05.Model
 
 namespace CaddyModel.C05
 
-/-- A subroute WITH error routes (handler 1 passes; error route runs handler 9), followed by a
+/-- GET a.test /a, no X-T header -/
+def wReq : Req := ⟨0, 0, 1, 0, [], none⟩
+
+/-- A subroute WITH error routes (handler 1 passes; its error route runs handler 9), followed by a
     route whose handler 3 fails with 404.  The failure happens BEHIND the subroute. -/
 def wDownstreamRoutes : List Route :=
   [ .mk 0 [] [.sub [.mk 0 [] [.pass 1] false] true [.mk 0 [] [.pass 9] false]] false,
     .mk 0 [] [.fail 3 404] false ]
 
-def wReq : Req := ⟨0, 0, 1, 0, [], none⟩
+/-- One route: rewrite to /b (handler 1), then a subroute whose handler 2 fails with 500 and whose
+    error route runs handler 3.  The server's error route runs handler 4. -/
+def wRewriteRoutes : List Route :=
+  [ .mk 0 [] [.rewrite 1 3, .sub [.mk 0 [] [.fail 2 500] false] true [.mk 0 [] [.fail 3 404] false]] false ]
+
+def wRewriteErrs : List Route := [ .mk 0 [] [.pass 4] false ]
+
+/-- the same two matchers in two orders: a host matcher that does not match `wReq`, and an
+    error matcher -/
+def wSetA : List Matcher := [.atom .host [1], .err 0 403]
+def wSetB : List Matcher := [.err 0 403, .atom .host [1]]
+
+def wOrderRoutes (s : List Matcher) : List Route := [ .mk 0 [s] [.respond 1 200] false ]
 
 end CaddyModel.C05
